@@ -288,10 +288,16 @@ pub fn c15_check(ck: &mut Checker, sim: &mut Sim, session: usize, req: &packed::
             bad.push(("start_difficulty_above_last".into(), String::new()));
         }
         if let Some(first) = diffs.first() {
-            if *first <= start_td {
+            if *first == start_td {
+                // (the recorded finding: a sample clamped to boundary - 1 on a tiny range)
                 bad.push((
                     "sample_not_above_start_difficulty".into(),
                     format!("{:#x} <= {:#x}", first, start_td),
+                ));
+            } else if *first < start_td {
+                bad.push((
+                    "sample_below_start_difficulty".into(),
+                    format!("{:#x} < {:#x}", first, start_td),
                 ));
             }
         }
@@ -407,6 +413,9 @@ pub struct C11State {
     pub answers_outstanding: Option<(usize, Vec<u8>)>,
     /// sessions a GetLastStateProof was sent to while the current delivery was handled
     pub proof_requested_in_event: HashSet<usize>,
+    /// per session: wall-clock time of the latest GetLastState / GetLastStateProof the client sent
+    /// (the model's own `when_sent`, not read from the client's state)
+    pub last_request_at: HashMap<usize, u64>,
 }
 
 fn c11_edge_ok(from: &str, to: &str) -> bool {
@@ -1138,11 +1147,18 @@ pub fn c11_on_boot(ck: &mut Checker, _sim: &mut Sim) {
     ck.c11.names.clear();
     ck.c11.inflight.clear();
 }
-pub fn c11_on_client_send(ck: &mut Checker, _sim: &mut Sim, s: usize, p: Proto, d: &Bytes) {
+pub fn c11_on_client_send(ck: &mut Checker, sim: &mut Sim, s: usize, p: Proto, d: &Bytes) {
     if p == Proto::LightClient {
         if let Ok(m) = packed::LightClientMessageReader::from_compatible_slice(d) {
-            if let packed::LightClientMessageUnionReader::GetLastStateProof(_) = m.to_enum() {
-                ck.c11.proof_requested_in_event.insert(s);
+            match m.to_enum() {
+                packed::LightClientMessageUnionReader::GetLastStateProof(_) => {
+                    ck.c11.proof_requested_in_event.insert(s);
+                    ck.c11.last_request_at.insert(s, crate::sim::wall_now(sim.now));
+                }
+                packed::LightClientMessageUnionReader::GetLastState(_) => {
+                    ck.c11.last_request_at.insert(s, crate::sim::wall_now(sim.now));
+                }
+                _ => {}
             }
         }
     }
@@ -1316,7 +1332,13 @@ pub fn c11_before_timer(ck: &mut Checker, sim: &mut Sim, proto: Proto, token: u6
             let text = format!("{:#}", st);
             let when_sent = c11_parse("when_sent:", &text);
             let update_ts = st.get_last_state().map(|l| l.update_ts());
-            let by_request = when_sent.map(|w| now > w + 60_000).unwrap_or(false);
+            // a request is outstanding (the client's state says so): it times out 60 s after the
+            // latest request was SENT - the model's own record, not the client's `when_sent`
+            let by_request = match (when_sent, ck.c11.last_request_at.get(s)) {
+                (Some(_), Some(sent)) => now > *sent + 60_000,
+                (Some(w), None) => now > w + 60_000,
+                (None, _) => false,
+            };
             let by_state = update_ts.map(|u| now > u + 60_000).unwrap_or(false);
             let other_requests = peer.get_blocks_proof_request().is_some()
                 || peer.get_blocks_request().is_some()
